@@ -210,7 +210,7 @@ theorem HistPool.poolLoop (w : World) (p : Pid) (pl rem ini : Nat) (pre : Bool) 
       dsimp only at h2 ⊢
       split
       · exact h2
-      · exact (h2.same (guardWaitEnter_same _ _ _ _)).same (block_same _ _ _)
+      · exact HistPool.of_eq (by simp) (by simp) (h2.same (guardWaitEnter_same w2 x.guard p (.poolAvail pl)))
 
 theorem HistPool.modifyHolders {w : World} (pl : Nat) (h' : HH) (h : HistPool w) :
     HistPool { w with pools := w.pools.modify pl fun y => { y with holders := h' } } := by
@@ -391,6 +391,7 @@ theorem HistPool.prioSet (w : World) (p q : Pid) (v : Int) (h : HistPool w) : Hi
 
 theorem HistPool.preserved : Preserved (fun w => TimeOk w.ev ∧ HistPool w) := by
   refine Preserved.withTime (fun hs h => h.same hs) ?_ ?_ ?_ ?_
+    (fun w p f h => HistPool.of_eq (by simp) (by simp) h)
   · intro w ev' n hle h
     exact ArrAll.mono h (fun x ok => ok.mono _ hle)
   · intro w p c h
